@@ -609,6 +609,17 @@ def run(chk):
     chk.rule("V3", "PT_WAIT_UNTIL / PT_EXIT_ON / PT_FAIL_ON test the user's condition against zero in its own type (no narrowing conversion on the way)")
     run_rules(chk, progs)
     check_condition_transparency(chk)
+    from . import macrohyg
+    chk.rule("V4", "every PT macro that takes an expression uses it as a unit: M(E) and M((E)) compile to the same code for low-precedence E (conditional, assignment, bitwise-or)")
+    prelude = ("extern pt_state_t ca(pt_t *), cb(pt_t *); extern int sel, x, y; extern pt_state_t last;\n")
+    cases = []
+    for mac in ("PT_WAIT_UNTIL", "PT_EXIT_ON", "PT_FAIL_ON"):
+        for arg in ("sel ? x : y", "x | y", "x = y"):
+            cases.append(("%s(%s)" % (mac, arg), "pt_state_t w_f(pt_t *pt) { PT_BEGIN(pt); %s(ARG); PT_END(); }" % mac, arg))
+    for mac in ("PT_SPAWN", "PT_SPAWN_AND_CHECK", "PT_CALL"):
+        for arg in ("sel ? ca(c) : cb(c)", "last = ca(c)"):
+            cases.append(("%s(c, %s)" % (mac, arg), "pt_state_t w_f(pt_t *pt, pt_t *c) { PT_BEGIN(pt); %s(c, ARG); PT_END(); }" % mac, arg))
+    macrohyg.check_parenthesised_equivalence(chk, "V4.argument-hygiene", "librfn/protothreads.h", prelude, cases)
 
 
 def check_state_cell(chk, src, cfg="default"):
